@@ -368,6 +368,13 @@ theorem evictLoop_get_none (space : Nat) (k : Key) (q : List Key) (s : State) (h
       simp only [evictStep, release]
       rw [BMap.get_del]; split <;> simp_all) q s hq h
 
+theorem good_createFailing {s : State} (hg : Good s) (k : Key) (n : Nat) : Good (createFailing s k n).1 := by
+  unfold createFailing
+  split
+  · exact hg
+  · have hg' := good_ensureFree hg n
+    split <;> (rename_i h; have e : _ = (ensureFree s n).1 := (congrArg Prod.fst h).symm; simp only at e; rw [e]; exact hg')
+
 theorem good_create {s : State} (hg : Good s) (k : Key) (n : Nat) (d : Bytes) : Good (create s k n d).1 := by
   unfold create
   split
